@@ -374,14 +374,56 @@ def parser_structure_rules(model: Model, run: Run, unesc) -> None:
     def is_decode_call(e: ast.expr) -> bool:
         return isinstance(e, ast.Call) and isinstance(e.func, ast.Name) and e.func.id == un_name
 
-    def definitely_decoded(fi, e: ast.expr, depth: int = 0) -> bool:
+    from ..srcmodel import _neg_lits
+
+    def contradicts(la: List[str], lb: List[str]) -> bool:
+        """some condition of la is the negation of a condition of lb"""
+        for l in la:
+            try:
+                negs = _neg_lits(ast.parse(l, mode="eval").body)
+            except SyntaxError:
+                continue
+            if len(negs) == 1 and negs[0] in lb:
+                return True
+        # `not x` against `x == <a value that is true>` (and the other way round)
+        def falsy_names(ls):
+            return {l[4:].strip() for l in ls if l.startswith("not ") and l[4:].strip().isidentifier()}
+
+        def truthy_names(ls):
+            out = set()
+            for l in ls:
+                try:
+                    e_ = ast.parse(l, mode="eval").body
+                except SyntaxError:
+                    continue
+                if isinstance(e_, ast.Name):
+                    out.add(e_.id)
+                if isinstance(e_, ast.Compare) and len(e_.ops) == 1 and isinstance(e_.ops[0], ast.Eq) and isinstance(e_.left, ast.Name) and \
+                        isinstance(e_.comparators[0], ast.Constant) and e_.comparators[0].value:
+                    out.add(e_.left.id)
+                if isinstance(e_, ast.Compare) and len(e_.ops) == 1 and isinstance(e_.ops[0], ast.In) and isinstance(e_.left, ast.Name) and \
+                        isinstance(e_.comparators[0], (ast.Tuple, ast.List)) and all(isinstance(x, ast.Constant) and x.value for x in e_.comparators[0].elts):
+                    out.add(e_.left.id)
+            return out
+        if falsy_names(la) & truthy_names(lb) or falsy_names(lb) & truthy_names(la):
+            return True
+        return False
+
+    def definitely_decoded(fi, e: ast.expr, depth: int = 0, at: Optional[ast.AST] = None) -> bool:
         if is_decode_call(e):
             return True
         if isinstance(e, ast.Call) and isinstance(e.func, ast.Attribute) and e.func.attr in ("strip", "lstrip", "rstrip", "lower", "upper"):
-            return definitely_decoded(fi, e.func.value, depth)
+            return definitely_decoded(fi, e.func.value, depth, at)
         if isinstance(e, ast.Name):
-            binds = [a.value for a in walk_no_nested(fi.node) if isinstance(a, (ast.Assign, ast.AnnAssign)) and a.value is not None and
-                     any(isinstance(t, ast.Name) and t.id == e.id for t in (a.targets if isinstance(a, ast.Assign) else [a.target]))]
+            bst = [a for a in walk_no_nested(fi.node) if isinstance(a, (ast.Assign, ast.AnnAssign)) and a.value is not None and
+                   any(isinstance(t, ast.Name) and t.id == e.id for t in (a.targets if isinstance(a, ast.Assign) else [a.target]))]
+            if bst and at is not None and len(bst) > 1:
+                # a binding made under conditions that cannot hold where the value is used does not reach the use
+                # (`if C: x = decode(raw) else: x = raw` ... later, under a test that settles C)
+                lu = dominating_literals(fi.node, at)
+                live = [a for a in bst if not contradicts(dominating_literals(fi.node, a), lu)]
+                bst = live or bst
+            binds = [a.value for a in bst]
             if binds:
                 return all(definitely_decoded(fi, b, depth) for b in binds)
             if e.id in fi.params() and depth < 3:
@@ -391,9 +433,117 @@ def parser_structure_rules(model: Model, run: Run, unesc) -> None:
                     for c in walk_no_nested(f2.node):
                         if isinstance(c, ast.Call) and isinstance(c.func, ast.Name) and c.func.id == fi.name:
                             a = c.args[idx] if idx < len(c.args) else next((k.value for k in c.keywords if k.arg == e.id), None)
-                            sites.append((f2, a))
-                return bool(sites) and all(a is not None and definitely_decoded(f2, a, depth + 1) for f2, a in sites)
+                            sites.append((f2, a, c))
+                return bool(sites) and all(a is not None and definitely_decoded(f2, a, depth + 1, c_) for f2, a, c_ in sites)
         return False
+    # J16: every octet-string value that reaches a filter constructor went through the un-escaper (None / literals aside),
+    # whichever helper it was cut out in: one component left as escape text does not survive the round trip
+    filt_classes = set(model.subclasses(f"{FILTER}.LDAPFilter", strict=True))
+    pf_by_name = {f.name: f for f in fa.parser_functions}
+
+    def is_decode(e: ast.expr) -> bool:
+        return isinstance(e, ast.Call) and ((isinstance(e.func, ast.Name) and e.func.id == un_name) or
+                                            (isinstance(e.func, ast.Attribute) and e.func.attr in (un_name, un_name.lstrip("_"))))
+
+    def value_kinds(fi, e: ast.expr, depth: int = 0, seen=None):
+        """{"dec", "raw", "const"} over every way e can be bound, with one witness expression per kind"""
+        seen = seen if seen is not None else set()
+        out = {}
+        if depth > 4:
+            return {"dec": e, "raw": e}
+        if isinstance(e, ast.Constant):
+            return {"const": e}
+        if is_decode(e):
+            return {"dec": e}
+        if isinstance(e, (ast.List, ast.Tuple)):
+            for x in e.elts:
+                out.update(value_kinds(fi, x, depth, seen))
+            return out or {"const": e}
+        if isinstance(e, ast.IfExp):
+            out.update(value_kinds(fi, e.body, depth, seen))
+            out.update(value_kinds(fi, e.orelse, depth, seen))
+            return out
+        if isinstance(e, ast.Name):
+            if (fi.qualname, e.id) in seen:
+                return {}
+            seen.add((fi.qualname, e.id))
+            found = False
+            for a_ in walk_no_nested(fi.node):
+                if isinstance(a_, (ast.Assign, ast.AnnAssign)) and a_.value is not None:
+                    tg = a_.targets if isinstance(a_, ast.Assign) else [a_.target]
+                    if any(isinstance(t, ast.Name) and t.id == e.id for t in tg):
+                        found = True
+                        out.update(value_kinds(fi, a_.value, depth, seen))
+                    for t in tg:
+                        if isinstance(t, ast.Tuple) and isinstance(a_.value, ast.Call) and any(isinstance(x, ast.Name) and x.id == e.id for x in t.elts):
+                            found = True
+                            names = [x.id if isinstance(x, ast.Name) else None for x in t.elts]
+                            hname = a_.value.func.id if isinstance(a_.value.func, ast.Name) else a_.value.func.attr if isinstance(a_.value.func, ast.Attribute) else None
+                            h = pf_by_name.get(hname)
+                            if h is None:
+                                out.update({"dec": a_.value, "raw": a_.value})        # not followed: no verdict either way
+                                continue
+                            idx = names.index(e.id)
+                            for r in walk_no_nested(h.node):
+                                if isinstance(r, ast.Return) and isinstance(r.value, ast.Tuple) and idx < len(r.value.elts):
+                                    out.update(value_kinds(h, r.value.elts[idx], depth + 1, seen))
+                                elif isinstance(r, ast.Return) and r.value is not None:
+                                    out.update({"dec": r.value, "raw": r.value})
+                if isinstance(a_, ast.Call) and isinstance(a_.func, ast.Attribute) and isinstance(a_.func.value, ast.Name) and a_.func.value.id == e.id and \
+                        a_.func.attr in ("append", "insert", "extend") and a_.args:
+                    found = True
+                    out.update(value_kinds(fi, a_.args[-1], depth, seen))
+                if isinstance(a_, (ast.For, ast.comprehension)) and any(isinstance(x, ast.Name) and x.id == e.id for x in ast.walk(a_.target)):
+                    found = True
+                    out.update({"raw": a_.iter})          # a piece of whatever is being iterated: raw text unless decoded afterwards
+            if not found and e.id in fi.params():
+                idx = fi.params().index(e.id)
+                off = 1 if fi.cls and not fi.is_staticmethod else 0
+                for f2 in fa.parser_functions + [fa.entry]:
+                    for c in walk_no_nested(f2.node):
+                        if isinstance(c, ast.Call) and ((isinstance(c.func, ast.Name) and c.func.id == fi.name) or (isinstance(c.func, ast.Attribute) and c.func.attr == fi.name)):
+                            j = idx - (off if isinstance(c.func, ast.Attribute) else 0)
+                            a = c.args[j] if 0 <= j < len(c.args) else next((k.value for k in c.keywords if k.arg == e.id), None)
+                            if a is not None:
+                                out.update(value_kinds(f2, a, depth + 1, seen))
+                return out or {"raw": e}
+            return out if found else {"raw": e}
+        if isinstance(e, ast.Call) and isinstance(e.func, ast.Attribute) and e.func.attr in ("tobytes", "strip", "lstrip", "rstrip") and not is_decode(e):
+            return value_kinds(fi, e.func.value, depth, seen) if isinstance(e.func.value, ast.Name) else {"raw": e}
+        if isinstance(e, ast.Call) and isinstance(e.func, ast.Name) and e.func.id in ("bytes", "bytearray") and len(e.args) == 1:
+            return value_kinds(fi, e.args[0], depth, seen) if isinstance(e.args[0], ast.Name) else {"raw": e}
+        if isinstance(e, ast.Subscript):
+            return value_kinds(fi, e.value, depth, seen) if isinstance(e.value, ast.Name) else {"raw": e}
+        if isinstance(e, ast.Call):
+            return {"dec": e, "raw": e}          # some other call: not followed, no verdict
+        return {"raw": e}
+
+    def decoded_value(fi, e: ast.expr, depth: int = 0, at: Optional[ast.AST] = None) -> Optional[ast.AST]:
+        """an expression showing that e is escape text that was NEVER un-escaped on any way it can be bound; None otherwise
+        (also when some ways decode and others do not: which one reaches the constructor is a path question this rule leaves
+        to J7 / J6)"""
+        k = value_kinds(fi, e)
+        if "raw" in k and "dec" not in k:
+            return k["raw"]
+        return None
+    n16 = 0
+    for fi in fa.parser_functions:
+        for c in walk_no_nested(fi.node):
+            if isinstance(c, ast.Call) and isinstance(c.func, (ast.Name, ast.Attribute)):
+                q = model.resolve_name(fi.module, norm(c.func))
+                if q in filt_classes:
+                    bf = set(bytes_fields(model, q))
+                    fields = [f.name for f in model.dataclass_fields(q) if f.init]
+                    for fname, arg in list(zip(fields, c.args)) + [(k.arg, k.value) for k in c.keywords if k.arg]:
+                        if fname in bf:
+                            n16 += 1
+                            bad = decoded_value(fi, arg, 0, c)
+                            run.ob("J16-values-reach-constructors-unescaped", bad is None, {"function": fi.name, "constructor": q.split(".")[-1], "field": fname})
+                            if bad is not None:
+                                run.fail(Finding("J16-values-reach-constructors-unescaped", fi.qualname, f"{q.split('.')[-1]}.{fname}|{norm(bad)[:50]}",
+                                                 f"{fi.name} hands `{norm(bad)[:50]}` to {q.split('.')[-1]}.{fname} without passing it through the un-escaper {un_name}: "
+                                                 "escape sequences in that component stay in the value as literal text", model.loc(fi.module, c)))
+    run.floor("assertion values handed to filter constructors", n16, 4)
     n7 = 0
     for fi in fa.parser_functions:
         if fi.qualname == unq:
@@ -402,7 +552,7 @@ def parser_structure_rules(model: Model, run: Run, unesc) -> None:
             if isinstance(c, ast.Call) and isinstance(c.func, ast.Attribute) and c.func.attr in ("split", "partition", "find", "index", "count") and c.args and \
                     isinstance(c.args[0], ast.Constant) and c.args[0].value in (b"*", "*"):
                 n7 += 1
-                bad = definitely_decoded(fi, c.func.value)
+                bad = definitely_decoded(fi, c.func.value, 0, c)
                 run.ob("J7-structure-read-before-unescaping", not bad, {"function": fi.name, "cut": norm(c)[:60]})
                 if bad:
                     run.fail(Finding("J7-structure-read-before-unescaping", fi.qualname, norm(c)[:80],
